@@ -19,7 +19,7 @@ confirm)
   [ $s -eq 0 ] || { echo "CONFIRM $id: suite FAILS with patch"; tail -5 /tmp/mut/$id.suite; rmw $w; exit 1; }
   # demo files: every non-patch, non-meta file; placed in fs/ when demo_place says so, else in the repo root
   sub=""; case "$place" in fs/*) sub=fs;; esac
-  for f in $d/*; do b=$(basename $f); case $b in patch.diff|meta.json) ;; *) cp $f $w/$sub/$b;; esac; done
+  for f in $d/*; do b=$(basename $f); case $b in patch.diff|meta.json) ;; *) if [ -d $f ]; then cp -r $f/. $w/$b/; else cp $f $w/$sub/$b; fi;; esac; done
   dcmd2=$(echo "$dcmd" | grep -o 'go test.*' | head -1)
   ( cd $w && eval "$dcmd2" ) >/tmp/mut/$id.demo1 2>&1; d1=$?
   ( cd $w && git apply -R $d/patch.diff ) || echo revert-failed
@@ -34,6 +34,7 @@ detect)
   cp /verif/known_findings.txt /tmp/mut/out-$$/
   /verif/bin/pvcheck -repo $w -out /tmp/mut/out-$$ -property all -tier ${TIER:-quick} > /tmp/mut/out-$$/all.log 2>&1
   caught=$(grep '^ALL caught-by:' /tmp/mut/out-$$/all.log | sed 's/ALL caught-by://')
+  grep -q '^ALL caught-by:' /tmp/mut/out-$$/all.log || caught=" CHECKER-ERROR($(grep -m1 -o 'fatal error: [a-z ]*\|panic: .*' /tmp/mut/out-$$/all.log | head -1))"
   grep -E "^\s+\[(violation|undecided|fatal)" /tmp/mut/out-$$/all.log | cut -c1-200 | head -${SHOW:-3}
   echo "DETECT $pf: caught-by:${caught:- NONE}"
   rmw $w; rm -rf /tmp/mut/out-$$
